@@ -113,12 +113,19 @@ VARIANTS = {
     'plain-O0':   dict(cxx='g++',     flags=['-O0', '-DVX_WRAP_MALLOC', '-Wl,--wrap=malloc,--wrap=calloc,--wrap=realloc,--wrap=free']),
     'asan-clang': dict(cxx='clang++', flags=['-O1', '-g', '-fsanitize=address,undefined', '-fno-sanitize-recover=all', '-fno-omit-frame-pointer', '-DVX_SAN']),
     'msan':       dict(cxx='clang++', flags=['-O1', '-g', '-fsanitize=memory', '-fno-sanitize-recover=all', '-fno-omit-frame-pointer', '-DVX_MSAN', '-DVX_SAN']),
+    # the same harness under the other language standards the library supports (default is c++17) and with the project's debug define
+    'cxx11':      dict(cxx='g++',     std='c++11', flags=['-O2', '-DVX_WRAP_MALLOC', '-Wl,--wrap=malloc,--wrap=calloc,--wrap=realloc,--wrap=free']),
+    'cxx14':      dict(cxx='g++',     std='c++14', flags=['-O2', '-DVX_WRAP_MALLOC', '-Wl,--wrap=malloc,--wrap=calloc,--wrap=realloc,--wrap=free']),
+    'cxx20':      dict(cxx='g++',     std='c++20', flags=['-O2', '-DVX_WRAP_MALLOC', '-Wl,--wrap=malloc,--wrap=calloc,--wrap=realloc,--wrap=free']),
+    'clang-cxx20':dict(cxx='clang++', std='c++20', flags=['-O2', '-DVX_WRAP_MALLOC', '-Wl,--wrap=malloc,--wrap=calloc,--wrap=realloc,--wrap=free']),
+    'clang-cxx11':dict(cxx='clang++', std='c++11', flags=['-O2', '-DVX_WRAP_MALLOC', '-Wl,--wrap=malloc,--wrap=calloc,--wrap=realloc,--wrap=free']),
+    'debug':      dict(cxx='g++',     flags=['-O1', '-D_DEBUG', '-DVX_WRAP_MALLOC', '-Wl,--wrap=malloc,--wrap=calloc,--wrap=realloc,--wrap=free']),
 }
 _build_lock = threading.Lock()
 
 def compile_cmd(source, out, defs, variant='plain', header='shipped', std='c++17', extra=None, access=True):
     v = VARIANTS[variant]
-    cmd = [v['cxx'], '-std=' + std] + v['flags']
+    cmd = [v['cxx'], '-std=' + v.get('std', std)] + v['flags']
     if access: cmd.append('-fno-access-control')
     cmd += ['-I' + os.path.join(REPO, 'include'), '-I' + os.path.join(REPO, 'development'), '-I' + ENGINE]
     if header == 'dev': cmd.append('-DVX_DEV_HEADER')
